@@ -51,7 +51,18 @@ def run(prop, path):
         bad = vs[0]["bad"]
         log(json.dumps(vs[0], indent=1))
     elif prop == "C14":
-        raise ToolError("C14 replay: re-run `./check C14` (the stored record shows the offending report)")
+        import engine_writers
+        rec = dict(payload["record"], id="replay")
+        vs, recs = engine_writers.c14_judge([{"id": "replay", "universe": rec["universe"],
+                                              "stream": rec["stream"], "opts": rec["opts"]}], "replay")
+        bad = vs["replay"]["bad"]
+        # a stored known-finding shape is not a new violation
+        known = {f["signature"] for f in common.known_findings() if f.get("status") == "open"}
+        nopath = not rec["universe"][0].get("path", True)
+        sfx = (":pathless" if nopath else "") + \
+            (":decorated-" + rec["opts"]["decorate"] if rec["opts"].get("decorate") else "")
+        bad = [b for b in bad if f"C14:{b[0]}:{b[1]}{sfx}" not in known]
+        log(json.dumps(vs["replay"], indent=1)[:3000])
     elif prop == "C15":
         recs, vs = _vector("pure-filter", "Trace_Filter.tla", [dict(payload["record"], id="replay")], cfg="Trace_U.cfg")
         bad = vs[0]["bad"]
@@ -60,9 +71,14 @@ def run(prop, path):
                            extra_args=[os.path.join(WORK, "replay_tmp")])
         bad = vs[0]["bad"]
     elif prop == "C17":
-        full = payload["record"]
-        raise ToolError("C17 replay: re-run `./check C17` (the stored record lists the registration order: %s)"
-                        % json.dumps(full.get("regs"))[:300])
+        import engine_pure
+        regs = payload["record"]["regs"]
+        # the stored registration order, looked up again (tables come from the specification)
+        vectors, _, _ = engine_pure.generate("Gen_StepMatch.tla", [("M", [("MaxDefs", "= 0")])], "c17replay")
+        v = dict(vectors[0], regs=regs, id="replay")
+        recs, vs = engine_pure.validate([v], "pure-stepmatch", "Trace_StepMatch.tla", "c17replay")
+        bad = vs[0]["bad"] + vs[0]["order"]
+        log(json.dumps(vs[0], indent=1)[:2000])
     elif prop == "C18":
         recs, vs = _vector("pure-retry", "Trace_RetryOpts.tla", [dict(payload["record"], id="replay")])
         bad = vs[0]["bad"]
